@@ -169,7 +169,7 @@ fn check_stream(ctx: &Ctx, parts: &[Vec<u8>], labels: &[String], wit: &dyn Fn() 
             }
         }
     }
-    #[cfg(feature = "full")]
+    #[cfg(feature = "f-decstack")]
     if also_record {
         let r = nexrad_data::volume::Record::new(stream.clone());
         match guarded(|| r.messages().map_err(|e| format!("{:?}", e))) {
